@@ -233,6 +233,15 @@ func runC01(c *Ctx) error {
 			}
 			v = make([]int, m)
 			cls = "slice"
+			switch r.Intn(3) { // the measure is the length: spare capacity and the window a slice was cut from do not count
+			case 0:
+				v = make([]int, m, int(m)+r.Range(1, 9))
+				cls = "slice-spare-capacity"
+			case 1:
+				big := make([]string, int(m)+r.Range(2, 6))
+				v = big[1 : 1+m]
+				cls = "slice-resliced"
+			}
 		case "int8":
 			v = int8(m)
 		case "int16":
